@@ -32,6 +32,8 @@ pub struct Worker<E: Effect, R: CommandReceiver<E>, S: EventSender<E>> {
     executor: Executor<E>,
     awaited: HashSet<ProcessId>,
     awaiters_for_target: HashMap<ProcessId, Vec<ProcessId>>, // target -> list of awaiters
+    // Processes whose termination the environment wants to hear of (see `Command::WatchProcess`)
+    watched: HashSet<ProcessId>,
     // process_id -> pending result requests; each request's keep-set drives orphaned-local release
     // once the process completes (see `Command::GetResult`).
     pending_result_requests: HashMap<ProcessId, Vec<PendingResultRequest>>,
@@ -106,6 +108,7 @@ impl<E: Effect, R: CommandReceiver<E>, S: EventSender<E>> Worker<E, R, S> {
             executor: Executor::new(builtins, profile, worker_id),
             awaited: HashSet::new(),
             awaiters_for_target: HashMap::new(),
+            watched: HashSet::new(),
             pending_result_requests: HashMap::new(),
             subscriptions: HashMap::new(),
             worker_id: worker_id as crate::WorkerId,
@@ -301,6 +304,9 @@ impl<E: Effect, R: CommandReceiver<E>, S: EventSender<E>> Worker<E, R, S> {
             }
             Command::Unsubscribe { subscription_id } => {
                 self.subscriptions.remove(&subscription_id);
+            }
+            Command::WatchProcess { process_id } => {
+                self.watched.insert(process_id);
             }
             Command::EffectCompletion {
                 process_id,
@@ -817,6 +823,24 @@ impl<E: Effect, R: CommandReceiver<E>, S: EventSender<E>> Worker<E, R, S> {
                     }
                 }
                 self.awaited.remove(&process_id);
+            }
+        }
+
+        // Check watched processes for termination. A persistent process that completed
+        // successfully is only sleeping: it will be resumed.
+        let watched_pids: Vec<ProcessId> = self.watched.iter().copied().collect();
+        for process_id in watched_pids {
+            let terminated = self
+                .executor
+                .get_process(process_id)
+                .is_some_and(|process| match &process.result {
+                    Some(Ok(_)) => !process.persistent,
+                    Some(Err(_)) => true,
+                    None => false,
+                });
+            if terminated {
+                self.watched.remove(&process_id);
+                self.sender.send(Event::ProcessTerminated { process_id })?;
             }
         }
 
